@@ -185,26 +185,30 @@ mutual
               simp [G.allocFunctor, G.allocCore, G.invoke]
               omega
           | true =>
-            simp only [ite_true]
-            cases src with
-            | ready r =>
-              simp only [enterHere, Dispatch.asyncEntry, ite_true]
+            simp only [↓reduceIte]
+            rw [enterHere_eq]
+            have hsrc := startSrc_cAlloc cfg src ctx (asyncRetAcct (stepType mode hd)
+              ((G.allocCore (g.invoke id ctx via) (srcCores src + steps.length)).allocFunctor (srcFunctors src + steps.length)))
+            cases hst : startSrc cfg src ctx (asyncRetAcct (stepType mode hd)
+              ((G.allocCore (g.invoke id ctx via) (srcCores src + steps.length)).allocFunctor (srcFunctors src + steps.length))) with
+            | go r0 inh0 c0 g3 =>
+              rw [hst] at hsrc
+              simp only []
               apply asyncFinish_alloc
-              apply runSteps_alloc cfg steps _ true ctx r .inl _ B _
+              apply runSteps_alloc cfg steps (src == .unit) true c0 r0 inh0 g3 B _
+              rw [hsrc]
               simp [G.allocFunctor, G.allocCore, G.invoke]
               omega
-            | contract p f =>
-              simp [enterHere, Dispatch.asyncEntry, AllocOut, G.allocFunctor, G.allocCore, G.invoke]; omega
-            | contractOn e p f =>
-              simp [enterHere, Dispatch.asyncEntry, AllocOut, G.allocFunctor, G.allocCore, G.invoke]; omega
-            | unit =>
-              simp [enterHere, Dispatch.asyncEntry, AllocOut, G.allocFunctor, G.allocCore, G.invoke]; omega
-            | promiseFn e p f =>
-              simp [enterHere, Dispatch.asyncEntry, AllocOut, G.allocFunctor, G.allocCore, G.invoke]; omega
-            | sharedReady r =>
-              simp [enterHere, Dispatch.asyncEntry, AllocOut, G.allocFunctor, G.allocCore, G.invoke]; omega
-            | sharedContract p f =>
-              simp [enterHere, Dispatch.asyncEntry, AllocOut, G.allocFunctor, G.allocCore, G.invoke]; omega
+            | wait w inh0 g3 =>
+              rw [hst] at hsrc
+              simp only [AllocOut, innerT, innerFrames, hsrc.1, hsrc.2]
+              simp [G.allocFunctor, G.allocCore, G.invoke]
+              omega
+            | crash g3 =>
+              rw [hst] at hsrc
+              simp only [AllocOut, hsrc]
+              simp [G.allocFunctor, G.allocCore, G.invoke]
+              omega
       | doneException => exact hskip _ _ _ rfl
       | doneError => exact hskip _ _ _ rfl
       | doneResult => exact hskip _ _ _ rfl
